@@ -18,20 +18,23 @@ MANIFEST = dict(
     category="proof",
     technique="Lean 4 theorems over hand-written models of parse_tlv / generate_tlv / parse_fwf_row / generate_fwf_row / "
               "the row loop of load_fwf + differential correspondence with the implementation",
-    text="Proved in Lean (unbounded in input length, number of entries, columns and lines): "
+    text="Proved in Lean (unbounded in input length, number of entries, columns and lines; 17 theorems in Props/C16.lean): "
          "C16_tlv_tiles - for EVERY function used as int() that rejects the empty string, every input string and all field widths, "
          "parse_tlv (with fix C16-a: negative length -> ValueError) ends normally or with ValueError, never runs out of fuel, the "
-         "triplets' cells concatenate to the consumed prefix (to the whole input when it ends normally), each triplet starts exactly where the "
-         "previous one ended and offsets strictly increase; C16_tlv_terminates - fuel |s|+1 suffices, any larger fuel gives the same result, "
-         "at most |s| triplets; C16_tlv_roundtrip(_pyint) - if every tag and length fits its field and len_padding is '0' or a blank, parsing the "
-         "generated text returns one (padded tag, len(value), value) per entry, in order; C16_tlv_refuses - otherwise AssertionError and no text; "
-         "C16_pyint_* - the int() model reads zero/blank padded decimals back; C16_fwf_roundtrip - for a layout with till = offset + size and pairwise "
-         "disjoint columns and a non-empty filler, every column written from the record parses back to str(value) padded/truncated to the column size; "
-         "C16_fwf_every_row_once - load_fwf's accepted and rejected lists are exactly the non-blank lines, each classified once by the "
-         "header/body/footer layout of its position, in file order. Counter-example theorems: the pre-fix step loops on 'AA-05' and overlaps on "
-         "'0-2' (fixed by C16-a), len_padding='x' produces text that does not parse back (open finding C16-c). "
-         "Differential only: the models themselves (int() on ASCII + listed blanks, slices, ljust/rjust/zfill, str() of str/int/bool/None), "
-         "load_lines/file layer, eval'd validation and mapping expressions (taken as total functions; a fixed menu is compared).",
+         "triplets' cells concatenate to the consumed prefix (to the whole input when it ends normally), each triplet starts inside the input exactly where the "
+         "cells of its predecessors end, offsets strictly increase, every triplet is the slice of the input at its offset with the non-negative length int() read; "
+         "C16_tlv_terminates - fuel |s|+1 suffices, any larger fuel gives the same result, at most |s| triplets (C16_tlv_needs_empty_rejected: the hypothesis on int('') is necessary); "
+         "C16_tlv_roundtrip / C16_tlv_roundtrip_pyint - if every tag and length fits its field and len_padding is '0' or a character int() strips, parsing the "
+         "generated text returns one (padded tag, len(value), value) per entry, in order; C16_tlv_refuses - generation fails iff something does not fit, and then with AssertionError; "
+         "C16_pyint_reads_padded / C16_pyint_rejects_empty - the int() model reads zero/blank padded decimals back; C16_fwf_roundtrip - for a layout with till = offset + size, pairwise "
+         "disjoint columns and a non-empty filler, parse_fwf_row returns one entry per column and every column written from the record or its mapping parses back to str(value) padded/truncated to the column size "
+         "(C16_fwf_cell_size, C16_fwf_absent_is_filler: unwritten columns read back as filler); "
+         "C16_fwf_every_row_once - if load_fwf returns, its accepted and rejected lists are exactly the non-blank lines, each classified once by the "
+         "header/body/footer layout of its position, in file order, lengths add up, rejected entries carry their own line, validate=False rejects nothing. "
+         "Counter-example theorems: C16_tlv_loop_cex / C16_tlv_overlap_cex (pre-fix step loops on 'AA-05', overlaps on '0-2'; C16_tlv_fixed_witnesses: now ValueError), "
+         "C16_fwf_rejected_midfile (fix C16-b), C16_tlv_badpad_cex (len_padding='x' emits text that does not parse back: open finding C16-c). "
+         "Differential only (streams tlv.int, tlv.parse, tlv.gen, fwf.parse, fwf.gen, fwf.load): the models themselves (int() on Latin-1 + listed blanks, slices, ljust/rjust/zfill, str() of str/int/bool/None), "
+         "load_lines/file layer, eval'd validation and mapping expressions (theorems take them as arbitrary total functions; a fixed menu of 8 + 4 expressions is compared).",
     note="model follows the tree with fixes C16-a (negative TLV length) and C16-b (failed_rows.append tuple) applied; "
          "blank lines of a fixed-width file are skipped by load_fwf (neither accepted nor rejected) - the reading of 'every row' is 'every non-blank line'",
     design_ref="5/C16",
